@@ -42,6 +42,19 @@ CHECKS = {
   text="Coq theorems over an executable model of main/run_file_with_reader for all flags and all worlds (compile outcome, create/write results, lua child behaviour): exit status 0 iff compilation (and execution) succeeded, all errors printed in order plus the summary, -o FILE untouched on a compile error and complete whenever status is 0, -o - same bytes, exactly one require line after the preamble (over Back/Emit.v). The driver source is re-read into a table on every run and proved (vm_compute) equal to a reviewed one; the extracted model is run against the built sylt binary on the flag x program x path x child matrix (stub lua) and the property is evaluated directly on the observations.",
   note="Open known finding: FILE is truncated when the write itself fails. Trusted: Coq kernel; gen_driver.py and the DocDriver.v review; gumdrop parsing, Rust Termination/panic exit statuses, RLIMIT_FSIZE behaviour (modelled, validated by the tie); the stub lua; the Lua interpreter model for the --no-std trace comparison. Signals and --dump-tree are not modelled. No axioms.",
   technique="Coq theorems on a driver model + regenerated driver table + matrix run of the real binary with a stub lua", design="DESIGN.md §4 C20"),
+ "C01": dict(
+  text="Per-program validation, not a theorem for all programs: for a hand-written corpus and generated well-typed programs dense in recursion, closures over mutable variables, if/case expressions held across calls, short-circuit operators, loops with break/continue, early ret, blobs with self, enums, tuples, lists and globals, the REAL emitted chunk (real preamble.lua included) is run in the Coq Lua 5.3 interpreter model and its printed trace and final outcome (done / failed <=> / reached <!>) must equal those of the Coq reference interpreter SyltSem run on the real resolver output. The full statement C01_full_statement is kept as a Prop and is not proved; structural facts about the lowering (C10_lower_scoped, C06 lemmas) are proved for all programs.",
+  note="Both interpreters are definitions (trusted): SyltSem is what 'the source denotes', LuaCore (Lua 5.3 dialect) is what 'running the Lua' means; no real Lua interpreter exists in the sandbox. Ints are unbounded, floats/division are outside the compared fragment, std-bundled programs are not compared (the reference interpreter implements only the `print` external). No axioms in the supporting theorems.",
+  technique="two extracted Coq interpreters (reference semantics of the source vs Lua 5.3 semantics of the real emitted chunk) compared per program", design="DESIGN.md §4 C01",
+  category="translation_validation"),
+ "C04": dict(
+  text="Coq theorems over a model of the type checker (coq/Types, exact on the tie: accept/reject and first error kind/line on all repo tests and generated/planted programs): assignments to constants are rejected; inside a pure function assignments, mutable definitions, reads of mutable variables and calls of impure functions are rejected at any depth (context monotonicity + propagation through every syntactic position); Pure does not unify with Impure. A planting oracle on the real compiler covers every forbidden construct at every position inside nested closures/branches/loops of pure functions.",
+  note="Open known finding C04-purity-laundering (purity forgotten through an un-annotated-purity function type). Trusted: Coq kernel; coq/Types/Tc.v as the model of typechecker.rs (validated by the differential tie, fed with the real resolver output through the hook); extraction; planters in tools/typed_gen.py. No axioms.",
+  technique="Coq rejection/propagation theorems on a type-checker model + differential tie + planting oracle on the real compiler", design="DESIGN.md §4 C04"),
+ "C05": dict(
+  text="Coq theorems over the type-checker model: the shape rules (blob instantiation with missing/unknown field, absent field access, unknown enum variant, non-exhaustive case without else, tuple index/length, externblob instantiation, break/continue outside a loop of the same function, start of type fn -> void) are rejected in every syntactic context (local rejection + propagation). A planting oracle on the real compiler covers every rule at every position for random blob/enum declarations; the emitted Lua of accepted bases must load (lua_wf).",
+  note="Trusted: Coq kernel; coq/Types/Tc.v as the model of typechecker.rs (differential tie); extraction; planters; lua_wf for the load check. No axioms.",
+  technique="Coq rejection/propagation theorems on a type-checker model + differential tie + planting oracle on the real compiler", design="DESIGN.md §4 C05"),
 }
 
 NOT_YET = "not yet claimed in this revision (machinery under construction; see DESIGN.md §4 for the plan)"
